@@ -59,6 +59,8 @@ type CallCtx struct {
 	Site   string
 	Fr     *Frame
 	ResT   *types.Tuple
+	Bind   []Val // bindings of the callee's free variables when the callee is a closure created on this path
+	Extra  map[string]Val // additional names for the callee's contract (result values fixed by the caller)
 }
 
 func (x *Exec) errorf(f string, a ...interface{}) {
@@ -883,6 +885,14 @@ func (x *Exec) doAlloc(st *State, et types.Type, pt types.Type) Val {
 		x.zeroRow(st, at.Elem(), r)
 		return scalar(r, pt)
 	}
+	if typeName(et) == "sync.Map" {
+		// the zero sync.Map is empty
+		inner := arrSort(SInt, SBool)
+		x.smRegister()
+		a := x.heapCur(st, smHas, smHasSort)
+		x.heapSet(st, smHas, StoreT(a, r, Term{"((as const " + inner + ") false)", inner}))
+		return scalar(r, pt)
+	}
 	if isStructVal(et) {
 		x.zeroStruct(st, et, r)
 	} else {
@@ -1537,6 +1547,12 @@ func (x *Exec) noteImplPred(pn string, it *types.Interface) {
 	}
 }
 
+func (x *Exec) strboxDecl() {
+	x.ufun("strbox", []string{SStr}, SInt)
+	x.ufun("strunbox", []string{SInt}, SStr)
+	x.Reg.Axiom("strboxRT", "(forall ((s String)) (! (and (= (strunbox (strbox s)) s) (> (strbox s) 0)) :pattern ((strbox s))))")
+}
+
 func (x *Exec) declIfaceFns() {
 	x.Reg.DeclareFun("dyntag", []string{SInt}, SInt)
 	x.Reg.DeclareFun("payl", []string{SInt}, SInt)
@@ -1555,6 +1571,11 @@ func (x *Exec) makeInterface(st *State, v Val, from, to types.Type) Val {
 	case VScalar:
 		if v.T.Sort == SInt {
 			payload = v.T
+		}
+		if v.T.Sort == SStr {
+			// strings are boxed injectively, so that equal strings give equal interface values
+			x.strboxDecl()
+			payload = app("strbox", SInt, v.T)
 		}
 	case VFunc, VIface:
 		payload = v.T
@@ -1645,7 +1666,11 @@ func (x *Exec) typeAssert(st *State, fr *Frame, v *ssa.TypeAssert) []*State {
 			x.declareTagDistinct(target)
 			okT = Eq(app("dyntag", SInt, xv.T), tag)
 			cs := comps(target)
-			if len(cs) == 1 && cs[0].Sort == SInt {
+			if len(cs) == 1 && cs[0].Sort == SStr {
+				x.strboxDecl()
+				pv, _ := unflatten(target, []Term{app("strunbox", SStr, app("payl", SInt, xv.T))})
+				res = pv
+			} else if len(cs) == 1 && cs[0].Sort == SInt {
 				pv, _ := unflatten(target, []Term{app("payl", SInt, xv.T)})
 				res = pv
 				if res.K == VScalar {
